@@ -26,6 +26,8 @@ enum Case {
     Params { suite: String },
     /// n = 65535 boundary (thorough)
     Huge { suite: String },
+    /// custom identifier lists whose members differ in a single bit, every bit position
+    IdBits { suite: String, seed: String },
     /// a few hundred participants, thresholds 2 and 40 (quick too)
     Big { suite: String, n: u16, t: u16, seed: String },
     /// all keys x all coefficient vectors on the tiny field
@@ -92,10 +94,12 @@ impl Prop for C06 {
             out.push(serde_json::to_value(Case::Big { suite: suite.to_string(), n: big, t: 2, seed: format!("s{seed}") }).unwrap());
             out.push(serde_json::to_value(Case::Big { suite: suite.to_string(), n: 60, t: 40, seed: format!("s{seed}") }).unwrap());
         }
-        if tier == Tier::Thorough {
-            for suite in ["ed25519", "secp256k1"] {
-                out.push(serde_json::to_value(Case::Huge { suite: suite.to_string() }).unwrap());
-            }
+        for suite in REAL_SUITES {
+            out.push(serde_json::to_value(Case::IdBits { suite: suite.to_string(), seed: format!("s{seed}") }).unwrap());
+        }
+        // the largest group the u16 parameters allow (identifiers 1..=65535)
+        for suite in if tier == Tier::Thorough { vec!["ed25519", "secp256k1", "p256"] } else { vec!["ed25519"] } {
+            out.push(serde_json::to_value(Case::Huge { suite: suite.to_string() }).unwrap());
         }
         for q in [5u64, 7, 11] {
             let uni = (q - 1) as usize;
@@ -118,7 +122,7 @@ impl Prop for C06 {
     fn run(&self, case: &Value) -> Outcome {
         let c: Case = serde_json::from_value(case.clone()).expect("case");
         match &c {
-            Case::Group { suite, .. } | Case::Params { suite } | Case::Huge { suite } | Case::Big { suite, .. } => {
+            Case::Group { suite, .. } | Case::Params { suite } | Case::Huge { suite } | Case::Big { suite, .. } | Case::IdBits { suite, .. } => {
                 with_suite!(suite.as_str(), run_real, &c)
             }
             Case::Tiny { q, .. } => match q {
@@ -136,6 +140,7 @@ fn run_real<C: Suite>(c: &Case) -> Outcome {
         Case::Group { n, t, idkind, src, seed, .. } => run_group::<C>(*n, *t, *idkind, *src, seed),
         Case::Params { .. } => run_params::<C>(),
         Case::Huge { .. } => run_huge::<C>(),
+        Case::IdBits { seed, .. } => run_idbits::<C>(seed),
         Case::Big { n, t, seed, .. } => run_big::<C>(*n, *t, seed),
         _ => unreachable!(),
     }
@@ -485,6 +490,43 @@ fn run_big<C: Suite>(n: u16, t: u16, seed: &str) -> Outcome {
         Err(e) => o.fail(format!("{tag}/keygen-failed"), format!("{ctx}: {e:?}")),
     }
     o.class("big");
+    o
+}
+
+/// custom identifier lists whose members differ in ONE bit, for every bit position of the scalar:
+/// the dealer must return one share per listed identifier
+fn run_idbits<C: Suite>(seed: &str) -> Outcome {
+    let mut o = Outcome::new();
+    let tag = format!("C06/{}", C::name());
+    let qm1 = id_numeric_key::<C>(&Identifier::<C>::new(neg::<C>(one::<C>())).unwrap());
+    let lead = qm1.iter().position(|b| *b != 0).unwrap_or(0);
+    let bits = ((qm1.len() - lead) as u32) * 8 - qm1[lead].leading_zeros();
+    let key = SigningKey::<C>::from_scalar(sc_seeded_nz::<C>(&format!("idbits:{seed}"))).unwrap();
+    for k in 1..bits - 1 {
+        // 1, 1 + 2^k, 2^k, 3: pairs that differ only in bit k / only in bit 0
+        let ids: Vec<Id<C>> = [one::<C>(), one::<C>() + pow2::<C>(k), pow2::<C>(k), sc_u64::<C>(3)].iter().filter_map(|s| Identifier::<C>::new(*s).ok()).collect();
+        let mut uniq = ids.clone();
+        uniq.dedup();
+        if uniq.len() != 4 || (k == 1 && ids[1] == ids[3]) {
+            continue;
+        }
+        let ctx = format!("custom identifiers 1, 1+2^{k}, 2^{k}, 3 (t=2)");
+        let mut rng = ScriptedRng::ctr(format!("idbits:{seed}:{k}"));
+        o.eval(true);
+        match C::w_split(&key, 4, 2, IdentifierList::Custom(&ids), &mut rng) {
+            Ok((shares, pkp)) => {
+                o.count("single_bit_identifier_lists", 1);
+                check_dealer_output::<C>(&mut o, &tag, &ctx, 4, 2, &ids, Some(key.clone().to_scalar()), &shares, &pkp, false);
+                for id in &ids {
+                    if !shares.contains_key(id) || !pkp.verifying_shares().contains_key(id) {
+                        o.fail(format!("{tag}/identifier-set"), format!("{ctx}: no share for one of the listed identifiers"));
+                    }
+                }
+            }
+            Err(e) => o.fail(format!("{tag}/keygen-failed"), format!("{ctx}: {e:?}")),
+        }
+    }
+    o.class("idbits");
     o
 }
 
